@@ -127,16 +127,27 @@ func verifHarness_C09_init() {
 	verifReach("C09/I")
 }
 
-// V: version 1 refuses ids above 255 and emits nothing.
-func verifHarness_C09_v1_big_id() {
+// V: version 1 refuses message ids above 255 and emits nothing: for a dialect message with any id above 255
+// (decoded or already encoded), and for ids outside the dialect.
+func verifHarness_C09_v1_big_id(raw int) {
+	id := verifNondetU32()
+	verifAssume(id > 255)
+	frame.VerifBigID = id
 	rec := &frame.VerifRecWriter{}
-	fw := &frame.Writer{ByteWriter: rec, DialectRW: frame.VerifDialectRW()}
+	fw := &frame.Writer{ByteWriter: rec, DialectRW: frame.VerifDialectWithBigRW()}
 	verifAssert(fw.Initialize() == nil, "C09/V/frame-writer-init")
 	w := &Writer{FrameWriter: fw, Version: V1, SystemID: 1}
 	verifAssert(w.Initialize() == nil, "C09/V/init")
-	id := verifNondetU32()
-	verifAssume(id > 255)
-	err := w.Write(&message.MessageRaw{ID: id, Payload: verifNondetBytes(2)})
+	var msg message.Message = &frame.MessageVerifBigID{V: verifNondetU8()}
+	if raw == 1 {
+		msg = &message.MessageRaw{ID: id, Payload: verifNondetBytes(1)}
+	}
+	if raw == 2 {
+		other := verifNondetU32()
+		verifAssume(other > 255)
+		msg = &message.MessageRaw{ID: other, Payload: verifNondetBytes(2)}
+	}
+	err := w.Write(msg)
 	verifAssert(err != nil, "C09/V/refused")
 	verifAssert(rec.Calls() == 0, "C09/V/nothing-emitted")
 	verifReach("C09/V")
